@@ -10,6 +10,7 @@ mkdir -p "$dst"
 if [ "$src" != "$dst" ]; then cp "$src"/patch.diff "$src"/meta.json "$dst"/ 2>/dev/null; cp "$src"/*_test.go "$dst"/ 2>/dev/null; fi
 [ -s "$dst/patch.diff" ] || { echo "no patch for $id"; exit 2; }
 demo=$(ls "$dst"/*_test.go | head -1)
+race=""; grep -q -- "-race" "$dst/meta.json" 2>/dev/null && race="-race"
 w=/tmp/confirm-$id
 git -C /repo worktree remove --force "$w" 2>/dev/null
 git -C /repo worktree add -q --detach "$w" HEAD || exit 2
@@ -18,8 +19,8 @@ res="$dst/confirmation.txt"; : > "$res"
 ( cd "$w" && go build ./... ) && echo "builds_with_change: yes" >> "$res" || echo "builds_with_change: NO" >> "$res"
 ( cd "$w" && go test -vet=off -count=1 ./... >/dev/null 2>&1 ) && echo "suite_passes_with_change: yes" >> "$res" || echo "suite_passes_with_change: NO" >> "$res"
 cp "$demo" "$w/"
-( cd "$w" && go test -vet=off -count=1 -run 'Seed|Demo|seed|demo' . >/dev/null 2>&1 ) && echo "demo_fails_with_change: NO (demo passed)" >> "$res" || echo "demo_fails_with_change: yes" >> "$res"
-( cd "$w" && git apply -R "$dst/patch.diff" && go test -vet=off -count=1 -run 'Seed|Demo|seed|demo' . >/dev/null 2>&1 ) && echo "demo_passes_without_change: yes" >> "$res" || echo "demo_passes_without_change: NO" >> "$res"
+( cd "$w" && go test $race -vet=off -count=1 -run 'Seed|Demo|seed|demo' . >/dev/null 2>&1 ) && echo "demo_fails_with_change: NO (demo passed)" >> "$res" || echo "demo_fails_with_change: yes" >> "$res"
+( cd "$w" && git apply -R "$dst/patch.diff" && go test $race -vet=off -count=1 -run 'Seed|Demo|seed|demo' . >/dev/null 2>&1 ) && echo "demo_passes_without_change: yes" >> "$res" || echo "demo_passes_without_change: NO" >> "$res"
 git -C /repo worktree remove --force "$w"
 cat "$res"
 # run the checks against the change (scratch copy of /repo's working tree outside /repo and /verif,
